@@ -4,7 +4,8 @@ from concurrent.futures import ThreadPoolExecutor
 from vlib import core
 
 PID = "C13"
-ENTRIES = {"c13quote": ("Quote.Entry", "entry_c13_quote"), "c13read": ("Quote.Entry", "entry_c13_read")}
+ENTRIES = {"c13quote": ("Quote.Entry", "entry_c13_quote"), "c13read": ("Quote.Entry", "entry_c13_read"),
+           "c13decode": ("Quote.Entry", "entry_c13_decode")}
 TRUSTED = [
     "modelled, not verified: brush-core/src/escape.rs quote/force_quote/quote_if_needed/backslash_escape/single_quote/"
     "double_quote/ansi_c_quote (hand model over regenerated tables, tied by differential execution at API level)",
@@ -322,6 +323,21 @@ def run(ctx, extended=False):
 
     e2e, per_form, pcases, ccases, vals = end_to_end(ctx, extended, specv)
 
+    # ------------------------------------------------------------------ C2. the ANSI-C decoder of escape.rs == model
+    dal = ["\\", "\\", "0", "1", "3", "7", "8", "a", "n", "E", "e", "t", "'", '"', "?", "z", "é", "b", " ", "\x01"]
+    dstr = ["".join(rng_choice(ctx, dal) for _ in range(ctx.rng.randrange(0, 9))) for _ in range(4000 if ctx.quick else 60000)]
+    dstr += ["\\%s" % "".join(t3) for t3 in itertools.product("01378a", repeat=3)] + ["\\0017", "\\777", "\\0777", "\\", "a\\"]
+    dstr += [t[2:-1] for t in texts if t.startswith("$'") and t.endswith("'")][:4000]
+    dm = ctx.model("c13decode", [[s] for s in dstr])
+    di = ctx.impl("c13decode", [[s] for s in dstr])
+    dec_cmp = 0
+    for s, a, b in zip(dstr, dm, di):
+        if core.dec_line(a)[:1] == ["U"]:
+            continue
+        dec_cmp += 1
+        if a != b:
+            mism.append({"what": "expand_backslash_escapes (ANSI-C mode)", "text": s, "model": core.dec_line(a), "code": core.dec_line(b)})
+
     # ------------------------------------------------------------------ D. extraction cross-check
     sidx = ctx.rng.sample(range(len(qcases)), 30)
     ce = ctx.coq_eval("c13quote", [[qcases[i][0], qcases[i][1]] for i in sidx])
@@ -338,12 +354,12 @@ def run(ctx, extended=False):
             "api_texts_failing_reader_spec": api_fail,
             "reader_texts": len(utexts), "reader_some": len(some),
             "e2e_values": len(vals), "e2e_print_cases": len(pcases), "e2e_read_cases": len(ccases),
-            "e2e": e2e, "per_form": per_form,
+            "e2e": e2e, "per_form": per_form, "ansi_c_decoder_cases": dec_cmp,
             "lengths": {"0-3": sum(1 for s in strs if len(s) <= 3), "4-15": sum(1 for s in strs if 4 <= len(s) <= 15),
                         "16+": sum(1 for s in strs if len(s) > 15)},
             "with_control_chars": sum(1 for s in strs if has_ctrl(s)), "in_class_Known": sum(1 for s in strs if known_pos(s))}
     return {
-        "evaluations": len(qcases) + len(rcases) + len(some) + len(pcases) + len(ccases),
+        "evaluations": len(qcases) + len(rcases) + len(some) + len(pcases) + len(ccases) + dec_cmp,
         "distinct_nontrivial": len(nontriv) + len({(f, s) for f, s in pcases if s}),
         "rule": "A: escape::force_quote/quote_if_needed x {single,double,backslash} on all strings of length<=3 over the "
                 "%d-symbol quoting alphabet (%d strings) + random strings to length 40 (alphabet, mostly-plain, arbitrary code "
@@ -363,6 +379,10 @@ def run(ctx, extended=False):
         "model_mismatches": mism,
         "spec_violations": specv,
     }
+
+
+def rng_choice(ctx, xs):
+    return ctx.rng.choice(xs)
 
 
 def octal_text_class(t):
